@@ -5,12 +5,51 @@ from vlib import Check, zlit, coq_bool
 
 TN = {"C": "Continue", "J": "Jump", "S": "Stop"}
 IM = {"vec": "IVec", "concrete": "IConcrete", "dyn": "IDyn"}
+F1 = ("C42-F1 TreeNodeContainer tuples (common/src/tree_node.rs): a Jump returned by the callback on the last real child "
+      "is reset to Continue when only EMPTY sibling containers follow it (Option::None / empty Vec answer Ok(Continue) / "
+      "Transformed::no, and visit_sibling/transform_sibling let that override the Jump). Seen on real Expr trees: "
+      "CASE WHEN a THEN b END without ELSE (also x IN () and any node whose last container is empty) with f_up(b) = Jump: "
+      "f_up(CASE) is still invoked and the walk ends with Continue, although TreeNodeRecursion::Jump documents that the "
+      "parents' f_up is bypassed; apply_children/map_children report Continue instead of the last callback's Jump")
+
+
+def groups_ok(gs):
+    """no non-empty container is followed only by empty ones (Model.TreeNode.groups_ok)"""
+    return not any(g and i + 1 < len(gs) and all(len(x) == 0 for x in gs[i + 1:]) for i, g in enumerate(gs))
+
+
+def well_grouped(t):
+    return groups_ok(groups(t[0], t[1])) and all(well_grouped(c) for c in t[1])
+
 METH = {"down": "MDown", "up": "MUp", "up_syn": "MUp", "down_up": "MDownUp", "rewrite": "MRewrite",
         "map_children": "MMapChildren"}
 
 
 def tree(t):
     return "(Node %s [%s])" % (zlit(t[0]), "; ".join(tree(c) for c in t[1]))
+
+
+def groups(l, cs):
+    """the sibling containers impl TreeNode for Expr keeps the children of this variant in (see c42e.rs)"""
+    if not cs and l < 400:
+        return []
+    if 100 <= l <= 109 or l in (410, 411):
+        return [cs]
+    if 200 <= l <= 243 or 300 <= l <= 301:
+        return [[c] for c in cs]
+    if l in (400, 401):
+        return [[cs[0]], cs[1:]]
+    if l == 420:
+        return [cs[i:i + 2] for i in range(0, len(cs), 2)]
+    if 500 <= l <= 503:
+        he, hl = (l - 500) & 1, ((l - 500) >> 1) & 1
+        mid = cs[he:len(cs) - hl]
+        return [cs[:he]] + [[c] for c in mid] + [cs[len(cs) - hl:] if hl else []]
+    raise ValueError((l, cs))
+
+
+def gtree(t):
+    return "(GNode %s [%s])" % (zlit(t[0]), "; ".join("[%s]" % "; ".join(gtree(c) for c in g) for g in groups(t[0], t[1])))
 
 
 def log(l):
@@ -27,6 +66,18 @@ def rtab(t):
 
 def render(c):
     k = c["k"]
+    if c["im"] == "expr":
+        t = gtree(c["t"])
+        if k == "apply":
+            return "GApply %s %s %s %s" % (t, vtab(c["tab"]), log(c["log"]), TN[c["res"]])
+        if k == "apply_children":
+            return "GApplyChildren %s %s %s %s" % (t, vtab(c["tab"]), log(c["log"]), TN[c["res"]])
+        if k == "exists":
+            return "GExists %s [%s] %s %s" % (t, "; ".join(zlit(h) for h in c["hits"]), log(c["log"]), coq_bool(c["res"]))
+        if k == "visit":
+            return "GVisit %s %s %s %s %s" % (t, vtab(c["dtab"]), vtab(c["utab"]), log(c["log"]), TN[c["res"]])
+        return "GTrans %s %s %s %s %s %s %s %s" % (
+            METH[c["m"]], t, rtab(c["dtab"]), rtab(c["utab"]), log(c["log"]), tree(c["out"]), coq_bool(c["flag"]), TN[c["res"]])
     if k == "apply":
         return "CApply %s %s %s %s" % (tree(c["t"]), vtab(c["tab"]), log(c["log"]), TN[c["res"]])
     if k == "apply_children":
@@ -76,7 +127,7 @@ def describe(c):
         c.get("log"), " out=%s flag=%s" % (c.get("out"), c.get("flag")) if k == "trans" else "", c.get("res"))
 
 
-def eval_cases(preamble, case_terms, shard=600, sub=8, timeout=900, tag="c42"):
+def eval_cases(preamble, case_terms, shard=800, sub=8, timeout=900, tag="c42"):
     """vlib.coq_eval_cases with one twist: coqc's front end is super-linear in the length of a single
     command, so every shard is written as many small list definitions that are appended.
     Returns (bad_indices, log, wall) exactly like vlib.coq_eval_cases."""
@@ -122,7 +173,7 @@ def eval_cases(preamble, case_terms, shard=600, sub=8, timeout=900, tag="c42"):
 
 def run(pid, tier, seed, replay):
     ck = Check(pid, tier, seed, level="proof")
-    n = 700 if tier == "quick" else 14000
+    n = 400 if tier == "quick" else 12000
     proof_ok = ck.proof_step(extra_targets=["Model/TreeNode.vo"])
     ok, out, dt = vlib.cargo_build("h_common", bin="c42")
     ck.log("cargo build h_common c42: ok=%s (%.0fs)" % (ok, dt))
@@ -134,15 +185,37 @@ def run(pid, tier, seed, replay):
     ck.log("harness: %d cases (%.1fs)" % (len(cases), dt))
     if rc != 0:
         ck.problem("tie", "harness run ended abnormally rc=%d: %s" % (rc, se[-1500:]))
+    # ---- the same checks driven through the real impl TreeNode for Expr
+    ok, out, dt = vlib.cargo_build("h_expr", bin="c42e")
+    ck.log("cargo build h_expr c42e: ok=%s (%.0fs)" % (ok, dt))
+    ecases = []
+    if not ok:
+        ck.problem("tie", "Expr harness build failed:\n" + out[-3000:])
+    else:
+        rc, so, se, dt = vlib.run_bin("c42e", ["--seed", seed, "--n", 120 if tier == "quick" else 4000])
+        ecases = vlib.jsonl(so)
+        ck.log("Expr harness: %d cases (%.1fs)" % (len(ecases), dt))
+        if rc != 0 or not ecases:
+            ck.problem("tie", "Expr harness run ended abnormally rc=%d: %s" % (rc, se[-1500:]))
+    cases += ecases
     if not cases:
         ck.problem("tie", "harness produced no cases")
         return ck.finish()
     # ---- direct property oracle (the documented contract evaluated on the implementation's own output)
     kinds = {}
+    f1_hits = []
     for c in cases:
         key = "%s/%s" % (c.get("m") or c["k"], c["im"])
         kinds[key] = kinds.get(key, 0) + 1
         if not c.get("ok", False):
+            if c["im"] == "expr" and not c.get("panic") and not well_grouped(c["t"]):
+                # the documented contract is violated exactly in the way proved by
+                # Props/C42.v C42_trailing_empty_container_refuted (whether the observation matches that
+                # model is checked by the correspondence below)
+                f1_hits.append(c)
+                if len(f1_hits) <= 3:
+                    ck.fail_input(F1, c)
+                continue
             what = ("PANIC in " if c.get("panic") else "recursion contract violated: ") + describe(c)
             ck.fail_input(what[:1500], c)
     # ---- correspondence: Coq model vs observation, exact (log, result tree, flag, final directive)
@@ -171,20 +244,25 @@ def run(pid, tier, seed, replay):
                 "(3 TreeNode impls), every (f_down,f_up) directive vector pair 9^n for <=3 nodes for visit and "
                 "transform_down_up/rewrite, all 6 rewriting entry points x 3 impls; the crate's own 10-node test tree with a single "
                 "Jump/Stop at every node and phase; random trees of 1..14 nodes (deep/wide/uniform, 1/5 with duplicate labels) x "
-                "random decision tables (honest and dishonest `transformed` flags, label collisions). non-trivial = some invoked "
+                "random decision tables (honest and dishonest `transformed` flags, label collisions); the same on real Expr trees (Literal, Not.., BinaryExpr, Like, Between, InList, GroupingSet, Case: every shape <=4 nodes + random <=12 nodes). non-trivial = some invoked "
                 "callback returned Jump/Stop (or exists hit) or the output tree differs from the input; distinct by full case hash",
         "exhaustive": False,
         "case_kinds": kinds,
         "max_tree_nodes": max(sizes),
+        "expr_cases": len(ecases),
+        "expr_cases_not_well_grouped": sum(1 for c in ecases if not well_grouped(c["t"])),
+        "finding_C42_F1_hits": len(f1_hits),
         "samples": [cases[0]] + pick[:2] + [c for c in cases if c["k"] == "visit" and tsize(c["t"]) >= 6][:1],
         "trusted_base": vlib.TRUSTED_COMMON + [
             "Model/TreeNode.v is a hand transcription of tree_node.rs (default methods, TreeNodeRecursion/Transformed combinators, "
             "apply_until_stop/map_until_stop_and_collect, Vec/Concrete/Dyn map_children); the `*_rust_eq` lemmas tie each Fixpoint to the "
             "literal Rust expression; the transcription is cross-checked against the real code on every case (exact log, tree, flag, tnr)",
+            "Expr nodes are modelled as gtree (children grouped by the sibling containers of each variant; grouping table in "
+            "lib/props/C42.py groups() mirrors expr/src/tree_node.rs), compared exactly with the real Expr on every case",
             "callbacks are modelled as functions of the node label (the harness interprets the same tables); callbacks that replace a "
             "node by one with different children, Err returns and recursive_protection are not modelled"],
     })
     ck.assumptions = ["callbacks return Ok and keep the children of the node they are given",
-                      "Expr/LogicalPlan/PhysicalExpr/ExecutionPlan apply_children/map_children follow the container semantics modelled "
-                      "(only the three generic implementations in common/src/tree_node.rs are exercised)"]
+                      "LogicalPlan / Arc<dyn PhysicalExpr> / Arc<dyn ExecutionPlan> apply_children/map_children follow the container "
+                      "semantics modelled (exercised: the three generic implementations in common/src/tree_node.rs and impl TreeNode for Expr)"]
     return ck.finish()
